@@ -88,8 +88,11 @@ void fiber_scheduler_schedule(fiber_scheduler_t* scheduler,
                               fiber_t* the_fiber) {
   assert(scheduler);
   assert(the_fiber);
+  // newly runnable fibers go behind the batch currently being drained; pushing
+  // them onto schedule_from (a LIFO) would let two yielding fibers starve every
+  // fiber queued below them
   wsd_work_stealing_deque_push_bottom(
-      ((fiber_scheduler_wsd_t*)scheduler)->schedule_from, the_fiber);
+      ((fiber_scheduler_wsd_t*)scheduler)->store_to, the_fiber);
 }
 
 fiber_t* fiber_scheduler_next(fiber_scheduler_t* sched) {
